@@ -681,6 +681,13 @@ func runURLNormalise(c *Ctx) {
 			if !mentionsHTTP {
 				return true
 			}
+			// a separate test for the scheme separator in the same condition does the same job
+			ast.Inspect(is.Cond, func(x ast.Node) bool {
+				if bl, ok := x.(*ast.BasicLit); ok && bl.Kind == token.STRING && strings.Contains(bl.Value, "://") {
+					bare = ""
+				}
+				return true
+			})
 			for _, st := range is.Body.List {
 				as, ok := st.(*ast.AssignStmt)
 				if !ok || len(as.Lhs) != 1 || len(as.Rhs) != 1 {
